@@ -13,13 +13,13 @@ func init() {
 		Title: "Go arrays and maps crossing the API are copied, never aliased",
 		Rule: "A table of write/observe probes: for every entry point that accepts or returns a Go array, Go map or sequence (class- and module-level constructors of the seven kinds, AsArray, GetValues, GetKeys, RemoveValues) the argument is overwritten at every position after the call, " +
 			"the result is modified through every mutating aspect it offers, and the collection is mutated by every mutator of its kind, each time re-observing the other side; every bulk operation is run with the receiver itself (and views of it) as operand and compared with the same operation on a separate copy. " +
-			"Each probe runs at sizes 0..5 (all positions, all sub-ranges). A reflection pass over the methods of all class and instance objects makes the run inconclusive if a method with a slice/map/sequence in its signature is not in the table. distinct_nontrivial = distinct (probe, size).",
+			"Each probe runs at sizes 0..5 (quick) / 0..12 (thorough), all positions and all sub-ranges. A reflection pass over the methods of all class and instance objects makes the run inconclusive if a method with a slice/map/sequence in its signature is not in the table. distinct_nontrivial = distinct (probe, size).",
 		Assumptions: []string{
 			"association objects reachable from a Catalog's array view are shared by design and not counted",
 			"class functions (Concatenate, Merge, Extract, And, Or, Sans, Xor) are probed for independence by C15/C16",
 		},
 		Engines: []*core.Engine{
-			{Name: "probes", Count: core.FixedCount(seq.C18Cases(), seq.C18Cases()), Run: seq.RunC18, Exhaustive: true},
+			{Name: "probes", Count: func(tier string) int { return seq.C18Cases(tier) }, Run: seq.RunC18, Exhaustive: true},
 			{Name: "completeness", Count: core.FixedCount(1, 1), Exhaustive: true, Run: func(c *core.Ctx, idx int) {
 				unknown, n := seq.C18Completeness()
 				c.CoverN("api-methods-inspected", n)
